@@ -1,7 +1,7 @@
 #!/bin/bash
 # usage: import_seeded.sh Cxx k   -- verify mutant k of /tmp/wt/Cxx in that scratch worktree and copy it to /verif/seeded/Cxx-k
 set -u
-P=$1; K=$2; WT=/tmp/wt/$P; M=$WT/_mutants/$K
+P=$1; K=$2; WT=${WTROOT:-/tmp/wt}/$P; M=$WT/_mutants/$K
 cd $WT || exit 2
 git checkout -q -- . ; rm -f tests/demo_seeded.rs
 git apply --check $M/patch.diff || { echo "$P-$K: patch does not apply"; exit 1; }
@@ -18,7 +18,7 @@ echo "$SUITE" | grep -q "236 passed; 0 failed" || OK=0
 echo "$DEMO_MUT" | grep -q "FAILED" || OK=0
 echo "$DEMO_CLEAN" | grep -q "ok\." || OK=0
 if [ $OK = 1 ]; then
-  D=/verif/seeded/$P-$K; mkdir -p $D
+  D=/verif/seeded/$P-${SUFFIX:-}$K; mkdir -p $D
   cp $M/patch.diff $M/demo.rs $D/; cp $M/notes.txt $D/notes.txt 2>/dev/null
   echo "$SUITE" > $D/verified.txt; echo "demo with change: $DEMO_MUT" >> $D/verified.txt; echo "demo on clean tree: $DEMO_CLEAN" >> $D/verified.txt
   echo "  -> imported to $D"
